@@ -351,7 +351,7 @@ def check_operation(ctx: Ctx, inp) -> None:
             ctx.disagree("converse:unsatisfiable", "every declared input has a conforming, sendable witness but generation reports Unsatisfiable", input=inp)
         else:
             sig = "converse:" + outcome.split(":")[1] if outcome.startswith("error:") else "converse:" + outcome
-            if "InternalError" in sig and "regex quantifier merg" in outcome:
+            if "InternalError" in sig and "resulted in an invalid regex" in outcome:
                 sig = "converse:InternalError:regex-quantifier-merging-produced-invalid-regex"
             ctx.disagree(sig, f"positive generation failed: {outcome}", input=inp)
         if not cases:
